@@ -55,8 +55,10 @@ def run_variant(pid, v, repo, baseline_keys):
             if new is None:
                 return dict(id=v['id'], status='skipped', why='anchor text not found (uniquely) in %s' % ed['file'])
             open(p, 'w', encoding='utf-8').write(new)
-        r = subprocess.run([sys.executable, os.path.join(VERIF, 'check.py'), pid, '--repo', tmp, '--no-evidence',
-                            '--evidence-dir', os.path.join(tmp, 'ev')], capture_output=True, text=True)
+        env = dict(os.environ)
+        env['ACV_NO_SELFTEST'] = '1'     # a variant may ask for the thorough tier of the check itself, never for a nested self-test
+        r = subprocess.run([sys.executable, os.path.join(VERIF, 'check.py'), pid, '--repo', tmp, '--no-evidence', '--tier', v.get('tier', 'quick'),
+                            '--evidence-dir', os.path.join(tmp, 'ev')], capture_output=True, text=True, env=env)
         out = r.stdout + r.stderr
         viol = []
         for ln in out.splitlines():
